@@ -87,6 +87,7 @@ func runC07(c *core.Ctx) {
 	ruleLZWWidthAdvance(c, "C07-R5")
 	rulePredictorGeometry(c, "C07-R6")
 	ruleTIFF16Carry(c, "C07-R7")
+	rulePNGAverage(c, "C07-R8")
 }
 
 func ruleFilterNames(c *core.Ctx) {
@@ -1050,4 +1051,38 @@ func ruleCCITTNoEOLInGroup4(c *core.Ctx) {
 		}
 		o.Require(n >= 1, "no EOL emission found in writeRow")
 	})
+}
+
+// rulePNGAverage (C07-R8): the PNG Average filter predicts
+// floor((left + above) / 2), "the sum shall be formed without overflow"
+// (PNG specification 9.4).  In the row filter and its inverse the halved sum
+// is formed in a type wider than 8 bits.
+func rulePNGAverage(c *core.Ctx, rule string) {
+	const pk = "pdf/internal/filter/predict"
+	for _, name := range []string{"(*writer).filterRow", "(*reader).decodePNGRow"} {
+		name := name
+		c.Check(rule, pk+"."+name+"/average", "the Average predictor halves a sum formed without 8-bit overflow", func(o *core.Ob) {
+			fn := c.Prog.Func(pk, name)
+			info := fn.Info()
+			n := 0
+			ast.Inspect(fn.Decl.Body, func(m ast.Node) bool {
+				be, ok := m.(*ast.BinaryExpr)
+				if !ok || (be.Op != token.QUO && be.Op != token.SHR) {
+					return true
+				}
+				sum, ok := ast.Unparen(be.X).(*ast.BinaryExpr)
+				if !ok || sum.Op != token.ADD {
+					return true
+				}
+				n++
+				o.Count(1)
+				o.At(fn.Site(be, "halved sum"))
+				if b, ok := info.TypeOf(sum).Underlying().(*types.Basic); ok && (b.Kind() == types.Uint8 || b.Kind() == types.Int8) {
+					o.FailAt(fn.Site(be, ""), "%s: %s adds two bytes in an 8-bit type before halving: sums of 256 and more wrap around", c.Prog.Pos(be.Pos()), c.Prog.Src(be))
+				}
+				return true
+			})
+			o.Require(n >= 1, "%s: no halved sum found (Average predictor)", fn.Key)
+		})
+	}
 }
